@@ -9,7 +9,7 @@ One entry point for every property (DESIGN section 5):
      on the same cases                                 (correspondence tie + search for a failing input)
   4. verdict, replay file, evidence/Cxx.json
 """
-import concurrent.futures
+import concurrent.futures, signal, threading
 import glob
 import hashlib
 import json
@@ -43,12 +43,39 @@ ESCAPES = re.compile(r"\b(Admitted|admit|Axiom|Axioms|Parameter|Parameters|Conje
 
 
 def sh(cmd, cwd=None, timeout=None, env=None):
+    # every command runs in its own process group, so that a timeout (or the termination of this script, see
+    # _terminate) takes the whole tree down: make -j and its coqc children, the harness and the children it forks
+    p = subprocess.Popen(cmd, cwd=cwd, shell=isinstance(cmd, str), stdout=subprocess.PIPE, stderr=subprocess.STDOUT,
+                         env=env or ENV, start_new_session=True)
+    with _LIVE_LOCK:
+        _LIVE.add(p.pid)
     try:
-        p = subprocess.run(cmd, cwd=cwd, shell=isinstance(cmd, str), stdout=subprocess.PIPE, stderr=subprocess.STDOUT,
-                           timeout=timeout, env=env or ENV)
-        return p.returncode, p.stdout.decode("utf-8", "replace")
-    except subprocess.TimeoutExpired as e:
-        return 124, (e.stdout or b"").decode("utf-8", "replace") + "\nTIMEOUT"
+        out, _ = p.communicate(timeout=timeout)
+        return p.returncode, out.decode("utf-8", "replace")
+    except subprocess.TimeoutExpired:
+        try:
+            os.killpg(p.pid, signal.SIGKILL)
+        except OSError:
+            pass
+        out, _ = p.communicate()
+        return 124, (out or b"").decode("utf-8", "replace") + "\nTIMEOUT"
+    finally:
+        with _LIVE_LOCK:
+            _LIVE.discard(p.pid)
+
+
+_LIVE, _LIVE_LOCK = set(), threading.Lock()
+
+
+def _terminate(signum, frame):
+    with _LIVE_LOCK:
+        pids = list(_LIVE)
+    for pid in pids:
+        try:
+            os.killpg(pid, signal.SIGKILL)
+        except OSError:
+            pass
+    sys.exit(128 + signum)
 
 
 def strip_coq_comments(text):
@@ -215,6 +242,8 @@ def load_known(prop):
 
 
 def main():
+    signal.signal(signal.SIGTERM, _terminate)
+    signal.signal(signal.SIGINT, _terminate)
     if len(sys.argv) < 3:
         print(__doc__)
         sys.exit(2)
